@@ -31,11 +31,12 @@ type conf struct {
 	after   int    // number of sequential calls issued after the close
 	par     int    // callers issuing the post-close call concurrently (1 or 2)
 	timeout int
-	downMs  int // how = "restart": the endpoint refuses connections for this long after the close
-	during  int // calls issued while the endpoint is down (their outcome is not judged)
-	respMs  int // the server answers every request this long after it arrived (0: at once)
-	graceMs int // how = "notify-close": the close follows the notification after this long (0: 1 ms)
-	idleMs  int // the server closes this long after its last response (0: 10 ms); 1000, 2000 coincide with the client sender's 1 s poll
+	downMs  int  // how = "restart": the endpoint refuses connections for this long after the close
+	during  int  // calls issued while the endpoint is down (their outcome is not judged)
+	racer   bool // a further call is issued at the very instant of the close (its own outcome is not judged)
+	respMs  int  // the server answers every request this long after it arrived (0: at once)
+	graceMs int  // how = "notify-close": the close follows the notification after this long (0: 1 ms)
+	idleMs  int  // the server closes this long after its last response (0: 10 ms); 1000, 2000 coincide with the client sender's 1 s poll
 }
 
 func scenario(c conf) *vm.Scenario {
@@ -53,6 +54,17 @@ func scenario(c conf) *vm.Scenario {
 		call := func(tag string, n int) {
 			var resp requestf.ResponsePacket
 			t0 := vm.Now()
+			if c.racer && strings.HasPrefix(tag, "post") {
+				// with stall deviations the old receiver itself may be held back: a call counts as "issued
+				// after the close" only if the client has taken note of the close by then
+				known := false
+				for _, tc := range tars.VerifClients(sp) {
+					known = known || transport.VerifClientState(tc).IsClosed
+				}
+				if !known {
+					tag = "unjudged-" + tag
+				}
+			}
 			err := sp.TarsInvoke(context.Background(), 0, "echo", []byte{byte(n)}, nil, nil, &resp)
 			el := (vm.Now() - t0) / 1e6
 			switch {
@@ -70,6 +82,9 @@ func scenario(c conf) *vm.Scenario {
 			call(fmt.Sprintf("pre%d", i), i)
 		}
 		tClose := vm.Recv(closed)
+		if c.racer {
+			vm.GoNamed("racer", func() { call("race", 77) })
+		}
 		if d := tClose + int64(c.deltaMs)*1e6 - vm.Now(); d > 0 {
 			vm.Sleep(d)
 		}
@@ -271,14 +286,14 @@ func check(c conf, r *vm.Result) string {
 			if isClosed && open {
 				msgs = append(msgs, "healthy-connection-treated-as-closed\n"+o)
 			}
-			if fq > 0 || sq > 0 {
+			if (fq > 0 || sq > 0) && !c.racer {
 				msgs = append(msgs, "request-stranded-in-send-queue\n"+o)
 			}
 		}
 	}
 	// a request written to a connection already known dead: the vnet log has a
 	// client write on the closed connection after the client's receiver saw EOF/RST
-	if closedConn != "" {
+	if closedConn != "" && !c.racer {
 		cid := "c" + strings.TrimPrefix(closedConn, "s")
 		sawEnd := false
 		for _, e := range vnetLog(r) {
@@ -313,6 +328,11 @@ func main() {
 		for pol, pn := range []string{"oldest-first", "newest-first", "round-robin"} {
 			cc := c
 			cc.timeout = 3000
+			if c.racer {
+				cc.name = fmt.Sprintf("call racing with the close, then closeAt=%d how=%s delta=%dms after=%d bound=%d prune=%v policy=%s stall-deviations within 10ms of the close", c.closeAt, c.how, c.deltaMs, c.after, bound, prune, pn)
+				cases = append(cases, e1.Case{Sc: scenario(cc), Opt: vm.Options{Bound: bound, StrictDev: true, Prune: prune, Policy: pol, Stall: true, DevFrom: 1, DevTo: 21e6}, Budget: budget, MinOutcomes: 1})
+				continue
+			}
 			if c.respMs > 0 {
 				cc.name = fmt.Sprintf("slow-server resp=%dms grace=%dms closeAt=%d how=%s delta=%dms after=%d par=%d bound=%d prune=%v policy=%s", c.respMs, c.graceMs, c.closeAt, c.how, c.deltaMs, c.after, c.par, bound, prune, pn)
 				cases = append(cases, e1.Case{Sc: scenario(cc), Opt: vm.Options{Bound: bound, StrictDev: true, Prune: prune, Policy: pol}, Budget: budget, MinOutcomes: 1})
@@ -374,6 +394,15 @@ func main() {
 			add(conf{closeAt: 1, how: how, deltaMs: d, after: 2, par: 1, respMs: 300, graceMs: 100}, b, false)
 		}
 		add(conf{closeAt: 1, how: how, deltaMs: 350, after: 1, par: 2, respMs: 300, graceMs: 100}, 1, false)
+	}
+	// a call issued at the very instant of the close (it may be lost) and judged calls 1 ms later, with "stall"
+	// deviations: a goroutine of the old connection may be held back while the clock moves on
+	for _, how := range []string{"reset", "close"} {
+		deep := 2
+		if run.Thorough() {
+			deep = 3
+		}
+		add(conf{closeAt: 1, how: how, deltaMs: 1, after: 1, par: 1, racer: true}, deep, true)
 	}
 	// restart: the endpoint is unreachable for a while; calls made meanwhile may fail, calls after it must succeed
 	for _, during := range []int{0, 1, 2} {
